@@ -620,6 +620,50 @@ Definition reopen (s : st) : R :=
     end
   end.
 
+(* core/blockchain.go Rollback: walk the given hashes from the last to the first; whichever head
+   (header, fast block, block) currently IS that hash steps back to its parent.  Only the head
+   pointers move (direct writes); headers, bodies, TDs and number entries stay.  GetHeader /
+   GetBlock of the parent returning nil is a nil dereference. *)
+Fixpoint rollback_loop (hs : list N) (s : st) : R :=
+  match hs with
+  | [] => (SOk, s)
+  | h :: rest =>
+    let r1 : R :=
+      if h_hash (cur_header s) =? h then
+        match header_of (dsk s) (h_parent (cur_header s)) with
+        | None => (SPanic, s)                    (* hc.SetCurrentHeader(nil) *)
+        | Some ph => (SOk, set_cur_header ph (emit (Put KHeadHeader (VHash (h_hash ph))) s))
+        end
+      else (SOk, s) in
+    match r1 with
+    | (SOk, s) =>
+      let r2 : R :=
+        if s_hash (cur_fast s) =? h then
+          match block_of (dsk s) (s_parent (cur_fast s)) with
+          | None => (SPanic, s)                  (* newFastBlock.Hash() on nil *)
+          | Some pb => (SOk, emit (Put KHeadFast (VHash (s_hash pb))) (set_cur_fast pb s))
+          end
+        else (SOk, s) in
+      match r2 with
+      | (SOk, s) =>
+        let r3 : R :=
+          if s_hash (cur_block s) =? h then
+            match block_of (dsk s) (s_parent (cur_block s)) with
+            | None => (SPanic, s)
+            | Some pb => (SOk, emit (Put KHeadBlock (VHash (s_hash pb))) (set_cur_block pb s))
+            end
+          else (SOk, s) in
+        match r3 with
+        | (SOk, s) => rollback_loop rest s
+        | other => other
+        end
+      | other => other
+      end
+    | other => other
+    end
+  end.
+Definition rollback (hs : list N) (s : st) : R := rollback_loop (rev hs) s.
+
 (* the database right after Genesis.Commit, and the chain opened on it *)
 Definition genesis_disk (g : header) : disk :=
   replay [Put (KTd (h_hash g)) (VNum (h_diff g));
@@ -636,7 +680,8 @@ Inductive op :=
 | OpInsert (chain : list block) (cs : list bool)
 | OpHeaders (chain : list header) (cs : list bool)
 | OpSetHead (n : N)
-| OpReopen.
+| OpReopen
+| OpRollback (hs : list N).
 
 Definition step (o : op) (s : st) : status * st :=
   match o with
@@ -644,5 +689,6 @@ Definition step (o : op) (s : st) : status * st :=
   | OpHeaders c cs => let '(e, _, s) := insert_header_chain c cs s in (e, s)
   | OpSetHead n => set_head n s
   | OpReopen => reopen s
+  | OpRollback hs => rollback hs s
   end.
 Definition run (ops : list op) (s : st) : st := fold_left (fun s o => snd (step o s)) ops s.
